@@ -220,6 +220,10 @@ func (p *Policy) sanitize(r io.Reader, w io.Writer) error {
 		closingTagToSkipStack    []string
 		closingTagToSkipCount    = map[string]int{}
 		mostRecentlyStartedToken string
+		// name of a void element whose start tag was removed for lack of
+		// attributes by the previous token, so that a closing tag written
+		// straight after it (<img></img>) is removed with it
+		droppedVoidElement string
 	)
 
 	tokenizer := html.NewTokenizer(r)
@@ -236,6 +240,8 @@ func (p *Policy) sanitize(r io.Reader, w io.Writer) error {
 		}
 
 		token := tokenizer.Token()
+		precededByDroppedVoidElement := droppedVoidElement
+		droppedVoidElement = ""
 		switch token.Type {
 		case html.DoctypeToken:
 
@@ -303,6 +309,8 @@ func (p *Policy) sanitize(r io.Reader, w io.Writer) error {
 						skipClosingTag = true
 						closingTagToSkipStack = append(closingTagToSkipStack, token.Data)
 						closingTagToSkipCount[token.Data]++
+					} else {
+						droppedVoidElement = token.Data
 					}
 					if p.addSpaces {
 						if _, err := buff.WriteString(" "); err != nil {
@@ -327,6 +335,10 @@ func (p *Policy) sanitize(r io.Reader, w io.Writer) error {
 			}
 
 		case html.EndTagToken:
+
+			if precededByDroppedVoidElement == token.Data {
+				continue
+			}
 
 			if mostRecentlyStartedToken == normaliseElementName(token.Data) {
 				mostRecentlyStartedToken = ""
